@@ -114,6 +114,51 @@ theorem original_still_insertable (c : Ctx) (n : Node) (h h' : Hdr) (body body' 
     addBlock c (addBlock c n h' body' commit).2 h body commit = addBlock c n h body commit := by
   rw [reject_no_effect c n h' body' commit hr]
 
+/-- a seed proof that does not verify is refused whatever seed the header states — in particular the nil hash that a failed
+`ProofToHash` returns next to its error (the pair edit "seed := 0, proof := garbage") -/
+theorem unverifiable_proof_rejected (c : Ctx) (h : Hdr) (body : Nat)
+    (hp : c.vrf (h .proposerPubKey) (h .seedProof) = none) : validateBlock c h body ≠ .ok := by
+  intro hv
+  have := (validate_sound hv).seed
+  rw [hp] at this
+  cases this
+
+/-- **no combination of edits of derived fields survives**: two accepted headers for the same body that agree on the
+proposer's free choices (key, time, offline report) agree on every derived field.  `hvrf`: a key has one verifying proof and one
+output per seed input (VRF uniqueness); `hfee`: both state a fee rate (an absent one is a free choice). -/
+theorem accepted_derived_unique {c : Ctx} {h h' : Hdr} {body : Nat}
+    (hv : validateBlock c h body = .ok) (hv' : validateBlock c h' body = .ok)
+    (hkey : h .proposerPubKey = h' .proposerPubKey) (htime : h .time = h' .time) (hoff : h .offlineAddr = h' .offlineAddr)
+    (hvrf : ∀ k p q o o', c.vrf k p = some o → c.vrf k q = some o' → p = q ∧ o = o')
+    (hfee : h .feePerGas ≠ 0 ∧ h' .feePerGas ≠ 0) :
+    ∀ f ∈ derived, h f = h' f := by
+  have a := validate_sound hv
+  have a' := validate_sound hv'
+  have hex : (h .txBloom, h .flags, h .root, h .identityRoot, h .txReceiptsCid) =
+      (h' .txBloom, h' .flags, h' .root, h' .identityRoot, h' .txReceiptsCid) := by
+    have h1 := a.exec; have h2 := a'.exec
+    rw [hkey, htime, hoff] at h1; rw [h1] at h2; exact Option.some.inj h2
+  simp only [Prod.mk.injEq] at hex
+  have hs := hvrf _ _ _ _ _ a.seed (hkey ▸ a'.seed)
+  intro f hf
+  cases f <;> simp [derived] at hf
+  · rw [a.parent, a'.parent]
+  · rw [a.height, a'.height]
+  · rw [a.txHash, a'.txHash]
+  · exact hex.2.2.1
+  · exact hex.2.2.2.1
+  · exact hex.2.1
+  · rw [a.cid, a'.cid]
+  · exact hex.1
+  · exact hs.2
+  · rcases a.fee with h0 | h1
+    · exact absurd h0 hfee.1
+    · rcases a'.fee with h0' | h1'
+      · exact absurd h0' hfee.2
+      · rw [h1, h1']
+  · exact hs.1
+  · exact hex.2.2.2.2
+
 /-- non-vacuity: a context and a header that is accepted -/
 def exCtx : Ctx :=
   { prevHash := 7, prevHeight := 4, prevTime := 100, now := 120, minDelay := 10, maxFuture := 120, stateFee := 3,
@@ -128,5 +173,7 @@ def exHdr : Hdr := fun f => match f with
 
 example : validateBlock exCtx exHdr 2 = .ok := by decide
 example : validateBlock exCtx (setField exHdr .root 99) 2 = .err (some .root) := by decide
+/-- the pair edit: nil seed together with a proof that does not verify -/
+example : validateBlock exCtx (setField (setField exHdr .blockSeed 0) .seedProof 77) 2 = .err (some .blockSeed) := by decide
 
 end IdenaModel.BlockValidate
